@@ -1,7 +1,7 @@
 HOOK_COMMITS = ["69b5feac"]
-FIX_COMMITS = ["1d9ec378", "304105e7", "df3a2e6c", "f7361866", "4009b9f0", "f51e7edb"]
+FIX_COMMITS = ["1d9ec378", "304105e7", "df3a2e6c", "f7361866", "4009b9f0", "f51e7edb", "ccff1f53"]
 ENGINES = [
-    {"name": "tlc+harness", "path": "/verif/bin/check", "serves_properties": ["C01", "C02", "C04", "C05", "C06", "C07", "C08", "C09", "C10", "C11", "C15", "C18", "C19", "C20"],
+    {"name": "tlc+harness", "path": "/verif/bin/check", "serves_properties": ["C01", "C02", "C04", "C05", "C06", "C07", "C08", "C09", "C10", "C11", "C12", "C13", "C15", "C18", "C19", "C20"],
      "kind_free_text": "explicit TLA+ specification (spec/*.tla) checked with TLC; bound to the Rust code by a harness crate "
                        "(/verif/harness) that replays TLC-generated behaviours into mls-rs and records traces validated by TLC"},
 ]
@@ -63,6 +63,15 @@ CHECKS += [
     {"id": "C18", "category": "model_checking", "technique": _CORE + "; per-party PSK stores drawn by TLC",
      "text": "Each behaviour fixes which party holds which value (none / a / b) for each external PSK id; commits inject external and resumption PSKs by value and by reference; exactly the members holding the committer's values and retaining the referenced epochs must reach the new epoch (same authenticator through the bijection), all others must reject with unchanged state; joiners need the same PSKs.",
      "note": "see C01; sensitivity of the secret to nonce/order is covered only through agreement classes (two commits never share a secret id)"},
+]
+
+CHECKS += [
+    {"id": "C12", "category": "model_checking", "technique": "TLA+ reference grammar (Codec.tla, WireSchema.tla) + TLC trace validation of decoder tables and accept/reject verdicts; robustness oracles in the harness",
+     "text": "Codec.tla is a reference decoder for the RFC 9420 presentation language (uintN, shortest-form variable-length integers, opaque<V>, vector<V>, optional); every byte string of length <= 3 (thorough 4) over a boundary alphabet is decoded by the implementation's primitives and TLC compares value and consumed length; the complete PrivateMessage and Welcome schemas give an exact accept/reject oracle for authentic and mutated messages; all inputs (authentic, truncated, boundary-valued, non-minimal prefixes, random) are decoded under catch_unwind with a counting allocator and must re-encode to the consumed bytes with mls_encoded_len equal to the written length.",
+     "note": "universal statements over all byte strings / all values are sampled; schemas for PublicMessage bodies, GroupInfo, KeyPackage and stored snapshots are not transcribed (robustness oracles only)"},
+    {"id": "C13", "category": "model_checking", "technique": "TLA+ transcription of the RFC 9420 derivation graph (KeySchedule.tla) + TLC validation of provenance trees recorded from the crypto provider",
+     "text": "A recording CipherSuiteProvider logs every kdf_extract / kdf_expand / hash / mac while real groups run seeded scenarios; for every API-visible value (epoch authenticator, exported secret, message key and nonce given to aead_seal, confirmed transcript hash) the harness emits the tree of recorded calls that produced it, knowing nothing about the formulas; TLC matches each tree against KeySchedule.tla: label strings with the MLS 1.0 prefix, contexts, both length fields, Extract salt/ikm roles, PSK index/count chain, secret-tree left/right positions (TreeMath), ratchet generations. Every recorded call is also re-evaluated with the other shipped providers.",
+     "note": "primitives trusted as functions; values produced before recording starts (creation epoch) or received through HPKE are accepted as inputs; membership tag and Welcome secret are not yet claimed"},
 ]
 
 _PENDING = "check not built yet in this round (see DESIGN.md section 10 build order); will be claimed once its TLA+ model and binding exist"
